@@ -20,7 +20,7 @@ ELEMENTS = ["H", "He", "Li", "Be", "B", "C", "N", "O", "F", "Ne", "Na", "Mg", "A
 PRUNES = ["nwchem_prune", "sg1_prune", "treutler_prune", None]
 RADI = ["treutler_ahlrichs", "becke", "delley", "mura_knowles", "gauss_chebyshev"]
 # legal Lebedev sizes (n_ang = 1 is listed by PySCF but its own Grids cannot build it: no reference)
-LEB_SIZES = [6, 14, 26, 38, 50, 74, 86, 110, 146, 170, 194, 230, 266, 302, 350, 434, 590]
+LEB_SIZES = [6, 14, 26, 38, 50, 74, 86, 110, 146, 170, 194, 230, 266, 302, 350, 434, 590, 770]
 ASSUME = ["pyscf.dft.gen_grid.Grids (PySCF 2.14) with the same attribute settings is the reference grid",
           "PySCF's Lebedev tables are exact to 1e-15 for their stated algebraic order"]
 YTOL = 1e-12
@@ -89,7 +89,9 @@ def st_grid_case(draw, max_atoms=4, lmax_lo=1, dens=None, max_level=3):
         "atom_grid": draw(st_atom_grid(syms)),
         "prune": draw(st.sampled_from(PRUNES)),
         "radi": draw(st.sampled_from(RADI)),
-        "lmax": draw(st.one_of(st.just(10), st.integers(lmax_lo, 14))),
+        # lmax above the degree small shells support (the tables are zero there) and, from 17 on, above what only the
+        # 434+ point shells support
+        "lmax": draw(st.one_of(st.just(10), st.integers(lmax_lo, 14), st.integers(lmax_lo, 14), st.integers(15, 22))),
         "alignment": draw(st.sampled_from([0, 1, 2, 3, 7, 8, 8, 16, 32, 64, 100])),
         "sort_grids": draw(st.booleans()),
         "dens": None,
@@ -547,7 +549,7 @@ def run_grid_case(case, ctx, sub):
 RULE = ("molecules of 1-4 atoms from H..Ar (element pool with repeats), tetrahedral template x drawn scale, jitter and "
         "rigid motion; level 0-3 or atom_grid as tuple / list / dict over a subset of the elements (n_rad 1-60, n_ang "
         "any Lebedev size 6..590; half of the dicts carry PySCF's 'default' entry); prune in {nwchem, sg1, treutler, None}; "
-        "5 radial schemes; plain CiderGrids(mol, lmax).build() with lmax 1-14 (10 half of the time); alignment in {0,1,2,3,7,8,16,32,64,100}; sort_grids T/F. "
+        "5 radial schemes; plain CiderGrids(mol, lmax).build() with lmax 1-22 (10 a quarter of the time, 15-22 a quarter: above 16 only the 434+ point shells support every degree); alignment in {0,1,2,3,7,8,16,32,64,100}; sort_grids T/F. "
         "Oracles: bit-for-bit multiset equality of non-zero-weight (x,y,z,w) and of the whole arrays with "
         "pyscf.dft.gen_grid.Grids of the same settings; idx_map injective into range(all_weights.size), "
         "all_weights[idx_map] == weights[:n] and atom-ordered coordinates rebuilt from rad_arr x PySCF Lebedev "
@@ -587,7 +589,7 @@ def prune_by_density(case, ctx):
 
 @subcheck("C19", "lmax_build_asan", lambda: st_grid_case(2, 1, False, 1), quick=96, thorough=1200, variant="asan",
           max_shards=4,
-          rule="1-2 atoms, level 0-1 or small atom_grid, lmax 1..14; build + all oracles of build_index_map in a process "
+          rule="1-2 atoms, level 0-1 or small atom_grid, lmax 1..22; build + all oracles of build_index_map in a process "
                "preloading the ASan+UBSan build of libmcider (the spherical-harmonic recursion runs with every table "
                "width): an out-of-bounds access is a violation of the case in flight",
           tolerances={"ylm_orthonormality": YTOL, "dirs": DTOL}, assumptions=ASSUME)
